@@ -9,6 +9,17 @@ thorough) of heavy atoms; plus input forms (explicit hydrogens, Kekule vs
 aromatic, every rooting RDKit can emit, object vs SMILES).  Oracle:
 differential - every spelling must give the dictionary (or failure) of the
 canonical spelling; estimates compared for object vs string input.
+
+Third wave (domains/w3_c03.py): two molecule families the size bound cannot
+reach, each molecule renumbered (string and object path) by moving every
+single atom to the first and to the last position, plus the full reversal
+(thorough: every atom at every position): (a) bifunctional molecules - every
+unordered pair of 16 end groups (one per remap source of the shipped schemes:
+CH3 / OH on sp3, C=C, C#C, benzene, C=O, O ...) joined directly and through
+one CH2; (b) ring pairs - every unordered pair of a ring alphabet
+(cyclopropane ... cyclohexane, benzene, cyclohexene, oxirane, oxane; thorough
++ cycloheptane, 1,3-cyclohexadiene) joined by a bond, through CH2, fused and
+spiro (thorough: at every ring atom / ring bond).
 """
 import itertools
 
@@ -16,6 +27,7 @@ from ..runner import Result
 from ..domains import schemes as SD
 from ..domains import molecules as MD
 from ..domains import libs
+from ..domains import w3_c03 as W3
 
 LEVEL = 'exploration'
 FULL_SCHEMES = {'quick': ['BensonGA', 'GRWSurface2018'], 'thorough': None}
@@ -29,33 +41,55 @@ BOUND = {
              'with radicals + curated molecules with <= 5 heavy atoms, on 2 '
              'scheme files (one gas, one surface); all-atom permutations for '
              '<= 5 atoms, ethene and methanol; placements of all 1- and 2-subsets for molecules '
-             'with 6 heavy atoms and 4 larger ones; input forms on all 6 distinct schemes',
+             'with 6 heavy atoms and 4 larger ones; input forms on all 6 distinct schemes; '
+             'on the same 2 scheme files: 252 bifunctional molecules (all unordered pairs of '
+             '16 end groups x {direct bond, CH2 spacer}, 2-17 heavy atoms) and 121 ring pairs '
+             '(all unordered pairs of 8 rings x {bond, CH2, fused, spiro} at the declared '
+             'attachment atom / fusion bond, benzene fused at either Kekule bond; fused '
+             'benzenoids excepted = K2), each under the identity, every single atom moved '
+             'to the first / to the last position, and the full reversal, string and object path',
     'thorough': 'all permutations up to 6 heavy atoms, on all 6 distinct scheme files, all-atom '
-                'permutations for <= 7 atoms and ethane, placements of all 3-subsets'}
+                'permutations for <= 7 atoms and ethane, placements of all 3-subsets; '
+                'on all 6 scheme files the bifunctional molecules and the ring pairs over 10 '
+                'rings joined at every ring atom / ring bond, each under all 1-subset '
+                'placements (every atom at every position) and the full reversal'}
 RULE = ('every spelling/renumbering in the stated space is decomposed and '
         'compared with the canonical spelling of the same molecule; '
         'non-trivial = the spelling differs from the canonical one and the '
-        'molecule has at least two heavy atoms or a correction descriptor')
+        'molecule has at least two heavy atoms or a correction descriptor; '
+        'for the ring pairs the counter ringpair_orders_other_ring_first '
+        'counts the renumberings under which RDKit lists the rings in '
+        'another size order than for the canonical spelling')
 ASSUMPTIONS = ['every generated spelling is first checked to parse back to the '
                'same canonical isomeric SMILES (a spelling that does not is a '
                'harness error, never a case)',
                'RDKit random-order SMILES are not used (that would be sampling)',
                'placements of k-subsets are exhaustive over the index tuples a '
                'matched fragment of <= k heavy atoms can receive, not over all '
-               'renumberings of the large molecules']
+               'renumberings of the large molecules',
+               'bifunctional molecules and ring pairs (2-17 heavy atoms) are '
+               'renumbered by single-atom moves only: exhaustive over which '
+               'atom is numbered first / last and over the relative order of '
+               'every pair of atoms (hence of every pair of group centres and '
+               'of which ring holds the lowest-numbered atom), not over all '
+               'renumberings',
+               'ring joins RDKit cannot sanitise are not molecules and are left '
+               'out; fused benzene + benzene is finding K2 (CURATED_FUSED)']
 MANIFEST = dict(
     technique='exhaustive enumeration of atom renumberings and input forms, '
               'differential oracle against the canonical spelling',
     text='All heavy-atom permutations of every small molecule as SMILES text '
          'and as renumbered molecule objects, all all-atom permutations of the '
          'smallest ones, all placements of small atom subsets in larger '
-         'molecules (the index-collision class), and all input forms, must '
+         'molecules (the index-collision class), all single-atom moves in '
+         'every molecule made of two functional groups or of two rings '
+         '(joined by a bond, a CH2, fused or spiro), and all input forms, must '
          'give the same descriptors (or the same failure) as the canonical '
          'spelling on the shipped scheme files; object and string input must '
          'give the same estimates.',
     note='Fused benzenoid ring systems are a recorded finding (K2); '
          'renumberings of molecules with > 6 heavy atoms are covered only '
-         'through subset placements.',
+         'through subset placements / single-atom moves.',
     ref='5/C03')
 
 
@@ -216,6 +250,50 @@ def run_perms(R, name, smi, tier, only=None, stride=None):
              limit=1)
 
 
+W3_FAMILIES = ('bifunc', 'ringpair')
+
+
+def w3_molecules(fam, tier):
+    return [c for c, _ in (W3.bifunctional() if fam == 'bifunc'
+                           else W3.ring_pairs(tier))]
+
+
+def w3_orders(n, tier):
+    """quick: identity, every atom moved to the front / to the back, reversal;
+    thorough: every atom at every position, reversal (a superset)."""
+    if tier == 'quick':
+        return W3.moves(n)
+    out = list(placements(n, 1))
+    rev = tuple(reversed(range(n)))
+    if rev not in out:
+        out.append(rev)
+    return out
+
+
+def run_w3(R, name, fam, smi, tier, only=None):
+    """One molecule of a third-wave family under every renumbering of
+    w3_orders (or the single renumbering `only`), string and object path."""
+    S = scheme(name)
+    M = Mol(smi)
+    base = desc(S, M.canon)
+    rings0 = W3.ring_size_sequence(M.m) if fam == 'ringpair' else None
+    ok_s = ok_o = True
+    for order in ([tuple(only)] if only is not None else w3_orders(M.n, tier)):
+        if ok_s or only is not None:
+            ok_s = check_variant(R, name, S, M, base, 'string-' + fam,
+                                 string_for(M, order), list(order))
+        if ok_o or only is not None:
+            obj = object_for(M, order)
+            if rings0 is not None and W3.ring_size_sequence(obj) != rings0:
+                R.extra['ringpair_orders_other_ring_first'] += 1
+            ok_o = check_variant(R, name, S, M, base, 'object-' + fam,
+                                 obj, list(order))
+        if not ok_s and not ok_o:
+            break
+    R.sample(dict(scheme=name, family=fam, molecule=M.canon,
+                  spelling=string_for(M, tuple(reversed(range(M.n))))), limit=1)
+
+
 def forms(M):
     """Input forms: (label, x)."""
     from rdkit import Chem
@@ -344,6 +422,9 @@ def small_molecules(name, tier):
     return out
 
 
+W3_CHUNKS = 8
+
+
 def shards(tier, seed):
     out = []
     for name in schemes_for(tier):
@@ -354,6 +435,9 @@ def shards(tier, seed):
         for b in (BIG_QUICK if tier == 'quick' else BIG + MD.CURATED_FUSED):
             for j in range(6):
                 out.append(('big', name, b, j, 6))
+        for fam in W3_FAMILIES:
+            for i in range(W3_CHUNKS):
+                out.append(('w3', name, fam, i, W3_CHUNKS))
     for name in SD.distinct_schemes():
         for i in range(4):
             out.append(('forms', name, i, 4))
@@ -372,6 +456,10 @@ def run_shard(shard, tier):
             run_perms(R, name, smi, tier)
     elif shard[0] == 'big':
         run_perms(R, shard[1], shard[2], tier, stride=(shard[3], shard[4]))
+    elif shard[0] == 'w3':
+        _, name, fam, i, n = shard
+        for smi in w3_molecules(fam, tier)[i::n]:
+            run_w3(R, name, fam, smi, tier)
     elif shard[0] == 'forms':
         _, name, i, n = shard
         mols = SD.molecules_for(name, 'quick') + BIG + MD.CURATED_FUSED
@@ -387,6 +475,9 @@ def replay(w):
         run_estimates(R, w['scheme'])
     elif w['how'] == 'form':
         run_forms(R, w['scheme'], [w['smiles']], only=w['label'])
+    elif w['how'].split('-')[-1] in W3_FAMILIES:
+        run_w3(R, w['scheme'], w['how'].split('-')[-1], w['smiles'], 'quick',
+               only=w['label'])
     elif w['how'] == 'object-allatoms':
         from rdkit import Chem
         S = scheme(w['scheme'])
